@@ -75,6 +75,29 @@ def run(ctx):
         # the caching wrapper around packets that carry inner layers of their own
         for k_ in ('IP', 'EthernetII', 'UDP', 'IPv6'):
             ms.append(('m%d' % len(ms), ['newcc ' + k_, 'rows 0']))
+        # chains of every shape (a payload layer in the middle, the same class twice, tunnels): a search by a layer's own class started
+        # at that layer returns that layer; and a transport layer under ANY parent class serializes without casting the parent wrongly
+        dc_ = [c for c in acc['default_constructible'] if c in type_of and c not in ('PKTAP', 'PPI')]
+        sf = []
+        for rep in range(60 if ctx.tier == 'quick' else 1200):
+            chain = [ctx.rng.choice(dc_ + ['RAW', 'RAW']) for _ in range(ctx.rng.randrange(2, 7))]
+            if chain[0] == 'RAW':
+                chain[0] = 'IP'
+            sf.append(('f%d' % len(sf), ['new ' + chain[0]] + [('raw x0102' if c == 'RAW' else 'push ' + c) for c in chain[1:]] + ['selffind']))
+        for c in dc_:
+            for tr in ('UDP', 'TCP'):
+                sf.append(('f%d' % len(sf), ['new ' + c, 'push ' + tr, 'raw x01020304', 'ser']))
+        sfh = C.run_harness('h_pkt', sf)
+        pairs += len(sf)
+        for sid, lines in sf:
+            out = [l for l in sfh.get(sid, []) if not l.startswith('!~')]
+            crash = [l for l in out if l.startswith('!!')]
+            if crash:
+                viol.append((True, 'chain %s: %s' % ([l.split()[-1] for l in lines[:-1]], crash[0]), {'name': lines[0].split()[1], 'flag': 0, 'type': 0}, lines[0].split()[1]))
+            elif lines[-1] == 'selffind' and out and out[-1].startswith('F') and '0' in out[-1].split()[1:]:
+                j = out[-1].split()[1:].index('0')
+                viol.append((True, 'chain %s: find_pdu<own class>() started at layer %d does not return that layer' % ([l.split()[-1] for l in lines[:-1]], j),
+                             {'name': lines[0].split()[1], 'flag': 0, 'type': 0}, lines[0].split()[1]))
         tnames_h = (C.run_harness('h_pkt', [('tn', ['tnames'])]).get('tn') or ['T'])[0].split()[1:]
         mh = C.run_harness('h_pkt', ms)
         pairs += len(ms)
